@@ -56,7 +56,8 @@ Import ListNotations.
 Inductive tid := TMain | TMgr | TReader | TWriter | TCaller (i : nat) | TTimer (i : nat).
 
 Inductive loc :=
-| LConn       (* the connection struct's immutable fields: conn, the channels, joinFunc, leaveFunc, filter, terminalEvent *)
+| LConn       (* everything immutable after construction: the connection struct's conn, channels, stopOnce, joinFunc,
+                 leaveFunc, filter, terminalEvent; the sessionManager's operationFuncChan and keyFunc *)
 | LHandles    (* c.handles (the map) *)
 | LSerial     (* c.platformSerialNumber *)
 | LRecord     (* write()'s record map, and the Handler objects whose ReplyBody re-parses into themselves *)
@@ -300,7 +301,7 @@ Definition step (v : variant) (s : st) (c : choice) : option (st * list ev) :=
       if booted s then None else
       Some (set_booted s,
             [EAcc TMain LConn true; EAcc TMain LHandles true; EAcc TMain LSerial true; EAcc TMain LKey true;
-             EFork TMain M [] [];
+             EFork TMain M [] [LConn];
              EFork TMain R [LKey] [LConn; LHandles];
              EFork TMain W [LSerial] [LConn; LHandles];
              (* the prologues: run(): record := make(map); reader(): curData, newPackageParse; write(): record := map *)
@@ -321,7 +322,7 @@ Definition step (v : variant) (s : st) (c : choice) : option (st * list ev) :=
   | MJoin =>   (* the join closure: record[key] = &session{header: ...}; ch <- nil *)
       match joinst s with
       | JSent n => Some (set_registered (set_sess (set_joinst s (JMgr n)) SMgr) true,
-                         [ERecv M KJoin; EAcc M LRegistry true; ESend M KJoinAck []])
+                         [ERecv M KJoin; EAcc M LConn false; EAcc M LRegistry true; ESend M KJoinAck []])
       | _ => None
       end
   | RJoinAck =>   (* <-ch; c.key = key; OnJoinEvent(msg, key, err) *)
@@ -343,7 +344,7 @@ Definition step (v : variant) (s : st) (c : choice) : option (st * list ev) :=
   | MLeave =>   (* the leave closure: delete(record, key); close(ch) *)
       match leavest s with
       | LvSent => Some (set_registered (set_leavest s LvMgr) false,
-                        [ERecv M KLeave; EAcc M LRegistry true; ESend M KLeaveAck []])
+                        [ERecv M KLeave; EAcc M LConn false; EAcc M LRegistry true; ESend M KLeaveAck []])
       | _ => None
       end
   | RStop2 =>   (* <-ch; OnLeaveEvent(c.key); (defect: clear(c.handles)); close(stopChan); conn.Close; close(...); clear(curData); pack.clear() *)
@@ -357,7 +358,8 @@ Definition step (v : variant) (s : st) (c : choice) : option (st * list ev) :=
   | CCall i =>   (* a goroutine calls SendActiveMessage: NewActiveMessage; operationFuncChan <- closure *)
       if booted s && match cst s i with CNone => true | _ => false end then
         Some (set_cst s i COpQ,
-              [EFork TMain (TCaller i) [] []; EAcc (TCaller i) (LAct i) true; ESend (TCaller i) (KWrite i) [LAct i]])
+              [EFork TMain (TCaller i) [] [LConn]; EAcc (TCaller i) LConn false; EAcc (TCaller i) (LAct i) true;
+               ESend (TCaller i) (KWrite i) [LAct i]])
       else None
   | MWrite i =>   (* the write closure *)
       match cst s i with
@@ -365,11 +367,11 @@ Definition step (v : variant) (s : st) (c : choice) : option (st * list ev) :=
           if registered s then   (* activeMsg.header = v.header; activeMsg.replyChan = ...; v.activeMsgChan <- activeMsg *)
             let give_sess := match sess s with SMgr => negb (v_share_header v) | _ => false end in
             Some ((if give_sess then set_sess (set_cst s i CActQ) (SAct i) else set_cst s i CActQ),
-                  [ERecv M (KWrite i); EAcc M LRegistry false; EAcc M (LAct i) true;
+                  [ERecv M (KWrite i); EAcc M LConn false; EAcc M LRegistry false; EAcc M (LAct i) true;
                    ESend M (KAct i) (LAct i :: if give_sess then [hdr s] else [])])
           else                   (* replyChan <- newErrMessage(ErrNotExistKey) *)
             Some (set_cst s i (CRepl (LFin i)),
-                  [ERecv M (KWrite i); EAcc M LRegistry false; EAcc M (LFin i) true;
+                  [ERecv M (KWrite i); EAcc M LConn false; EAcc M LRegistry false; EAcc M (LFin i) true;
                    ESend M (KReply i) [LFin i; LAct i]])
       | _ => None
       end
@@ -469,3 +471,152 @@ Definition lclass_of (l : loc) : lclass :=
   match l with LConn => XConn | LHandles => XHandles | LSerial => XSerial | LRecord => XRecord | LKey => XKey
              | LBuf => XBuf | LRegistry => XRegistry | LSessHdr => XSessHdr | LMsg _ => XMsg | LAct _ => XAct
              | LReply _ => XReply | LFin _ => XFin end.
+
+(* ================================================================ Part 4: the access-site tables *)
+From Coq Require Import String.
+Open Scope string_scope.
+
+(* which goroutine runs a function of package service ("T.m" method, "$k" the k-th function literal
+   inside it).  Read off the code: reader()/write() are started by Start, run() by New, the timer
+   closure by `go func` in onActiveEvent, the manager closures are sent through operationFuncChan,
+   the Once closure of stop() runs inside stop(). *)
+Definition fun_table : list (string * gclass) :=
+  [ ("New", GMain); ("GoJT808.Run", GMain); ("newSessionManager", GMain); ("newConnection", GMain);
+    ("connection.Start", GMain);
+    ("sessionManager.run", GMgr); ("sessionManager.join$1", GMgr); ("sessionManager.leave$1", GMgr);
+    ("sessionManager.write$1", GMgr);
+    ("connection.reader", GReader); ("connection.reader$1", GReader); ("connection.stop", GReader);
+    ("connection.stop$1", GReader); ("connection.onReadExecutionEvent", GReader);
+    ("sessionManager.join", GReader); ("sessionManager.leave", GReader);
+    ("newPackageParse", GReader); ("packageParse.clear", GReader); ("packageParse.parse", GReader);
+    ("packageParse.unpack", GReader); ("packageParse.completePack", GReader); ("packageParse.add", GReader);
+    ("packageParse.remove", GReader); ("packageParse.deleteTimeoutPackage", GReader);
+    ("packageParse.supplementarySubPackage", GReader);
+    ("connection.write", GWriter); ("connection.defaultReplyEvent", GWriter);
+    ("connection.subPackReplyEvent", GWriter); ("connection.onActiveEvent", GWriter);
+    ("connection.onStopEvent", GWriter); ("connection.onActiveCompleteEvent", GWriter);
+    ("connection.onActiveRespondEvent", GWriter); ("connection.onWriteExecutionEvent", GWriter);
+    ("connection.curSeq", GWriter); ("connection.curSeq$1", GWriter);
+    ("connection.onActiveEvent$1", GTimer);
+    ("GoJT808.SendActiveMessage", GCaller); ("sessionManager.write", GCaller) ].
+
+(* which abstract location a field of a statically placed struct is *)
+Definition field_table : list (string * string * lclass) :=
+  [ ("connection", "conn", XConn); ("connection", "stopOnce", XConn); ("connection", "stopChan", XConn);
+    ("connection", "msgChan", XConn); ("connection", "activeMsgChan", XConn);
+    ("connection", "activeMsgCompleteChan", XConn); ("connection", "reissuePackChan", XConn);
+    ("connection", "joinFunc", XConn); ("connection", "leaveFunc", XConn); ("connection", "filter", XConn);
+    ("connection", "terminalEvent", XConn);
+    ("connection", "handles", XHandles); ("connection", "platformSerialNumber", XSerial); ("connection", "key", XKey);
+    ("packageParse", "historyData", XBuf); ("packageParse", "subcontractingRecord", XBuf);
+    ("packageParse", "timeoutRecord", XBuf);
+    ("packageComplete", "createTime", XBuf); ("packageComplete", "updateTime", XBuf); ("packageComplete", "initHeader", XBuf);
+    ("sessionManager", "operationFuncChan", XConn); ("sessionManager", "keyFunc", XConn);
+    ("session", "header", XRegistry); ("session", "joinTime", XRegistry); ("session", "activeMsgChan", XRegistry) ].
+
+(* `go f()` statements: who may start whom *)
+Definition spawn_table : list (gclass * gclass) :=
+  [ (GMain, GMain); (GMain, GMgr); (GMain, GReader); (GMain, GWriter); (GWriter, GTimer) ].
+
+Definition gclass_eqb (a b : gclass) : bool :=
+  match a, b with
+  | GMain, GMain | GMgr, GMgr | GReader, GReader | GWriter, GWriter | GCaller, GCaller | GTimer, GTimer => true
+  | _, _ => false
+  end.
+
+Definition lclass_eqb (a b : lclass) : bool :=
+  match a, b with
+  | XConn, XConn | XHandles, XHandles | XSerial, XSerial | XRecord, XRecord | XKey, XKey | XBuf, XBuf
+  | XRegistry, XRegistry | XSessHdr, XSessHdr | XMsg, XMsg | XAct, XAct | XReply, XReply | XFin, XFin => true
+  | _, _ => false
+  end.
+
+Section Lookup.
+  Variable key : Type.
+  Variable keqb : key -> key -> bool.
+
+  Fixpoint lookup_fun (f : key) (t : list (key * gclass)) : option gclass :=
+    match t with [] => None | (n, g) :: r => if keqb n f then Some g else lookup_fun f r end.
+
+  Fixpoint lookup_field (ty fld : key) (t : list (key * key * lclass)) : option lclass :=
+    match t with
+    | [] => None
+    | (a, b, x) :: r => if keqb a ty && keqb b fld then Some x else lookup_field ty fld r
+    end.
+End Lookup.
+Arguments lookup_fun {key} keqb f t.
+Arguments lookup_field {key} keqb ty fld t.
+
+(* a schedule in which every kind of step of the model fires at least once *)
+Definition cover_sched : list choice :=
+  [Boot; RRead 0; RJoinSend 0; MJoin; RJoinAck; RPush 0; CCall 0; MWrite 0; WMsg 0 None; WAct 0 true true;
+   RRead 1; RPush 1; CCall 1; MWrite 1; WAct 1 true true; WMsg 1 (Some 0); CRet 0; TFire 0 false; TFire 1 false;
+   WCpl 0; WCpl 1; CRet 1; CCall 4; MWrite 4; WAct 4 false false; CRet 4; CCall 5; MWrite 5; WAct 5 true true;
+   CCall 6; MWrite 6; WAct 6 true false; CCall 2; MWrite 2; RStop; MLeave; CCall 3; MWrite 3; RStop2; TFire 5 true;
+   WSeeStop; WStopOut 6; WStopDrain 2; CRet 2; CRet 3; CRet 6; WExit].
+
+Fixpoint acc_classes (tr : list ev) : list (gclass * lclass * bool) :=
+  match tr with
+  | [] => []
+  | EAcc t l w :: r => (class_of t, lclass_of l, w) :: acc_classes r
+  | _ :: r => acc_classes r
+  end.
+
+(* every (goroutine class, location class, mode) the model performs *)
+Definition model_acc : list (gclass * lclass * bool) := acc_classes (trace (step repaired) init cover_sched).
+
+Definition performs (g : gclass) (x : lclass) (w : bool) : bool :=
+  existsb (fun a => match a with (g', x', w') => gclass_eqb g' g && lclass_eqb x' x && (w' || negb w) end) model_acc.
+
+(* the code site "function f touches field ty.fld (w: writes it)" is one the model annotates;
+   a static call caller -> callee stays inside one goroutine: both of one class (callees outside the
+   table touch no statically placed field and are free); a go statement starts an allowed class *)
+Section Sites.
+  Variable key : Type.
+  Variable keqb : key -> key -> bool.
+  Variable ft : list (key * gclass).
+  Variable fdt : list (key * key * lclass).
+
+  Definition site_ok_g (f ty fld : key) (w : bool) : bool :=
+    match lookup_fun keqb f ft, lookup_field keqb ty fld fdt with
+    | Some g, Some x => performs g x w
+    | _, _ => false
+    end.
+
+  Definition call_ok_g (caller callee : key) : bool :=
+    match lookup_fun keqb callee ft with
+    | None => true
+    | Some b => match lookup_fun keqb caller ft with Some a => gclass_eqb a b | None => false end
+    end.
+
+  Definition spawn_ok_g (caller callee : key) : bool :=
+    match lookup_fun keqb caller ft, lookup_fun keqb callee ft with
+    | Some a, Some b => existsb (fun p => gclass_eqb (fst p) a && gclass_eqb (snd p) b) spawn_table
+    | _, _ => false
+    end.
+End Sites.
+
+Definition site_ok := site_ok_g string String.eqb fun_table field_table.
+Definition call_ok := call_ok_g string String.eqb fun_table.
+Definition spawn_ok := spawn_ok_g string String.eqb fun_table.
+
+(* the same tables with names as lists of character codes: what the oracle extracts (the extracted
+   program must not contain Coq's String module, whose name collides with OCaml's) *)
+From Coq Require Import NArith Ascii.
+Definition nm (s : string) : list N := map N_of_ascii (list_ascii_of_string s).
+
+Fixpoint codes_eqb (a b : list N) : bool :=
+  match a, b with
+  | [], [] => true
+  | x :: a', y :: b' => N.eqb x y && codes_eqb a' b'
+  | _, _ => false
+  end.
+
+Definition fun_table_n : list (list N * gclass) :=
+  Eval vm_compute in map (fun p => (nm (fst p), snd p)) fun_table.
+Definition field_table_n : list (list N * list N * lclass) :=
+  Eval vm_compute in map (fun p => (nm (fst (fst p)), nm (snd (fst p)), snd p)) field_table.
+
+Definition site_ok_n := site_ok_g (list N) codes_eqb fun_table_n field_table_n.
+Definition call_ok_n := call_ok_g (list N) codes_eqb fun_table_n.
+Definition spawn_ok_n := spawn_ok_g (list N) codes_eqb fun_table_n.
